@@ -32,7 +32,8 @@ ASSUMPTIONS = [
     "caller's business)",
     "FilePool is given paths of existing files (or modes that create them); a failing open() is outside the statement",
 ]
-NCASES = {"quick": 520, "thorough": 16000}
+BASE_CASES = {"quick": 520, "thorough": 16000}
+NCASES = {"quick": 640, "thorough": 19200}
 NSHARDS = 16
 SHARD_TIMEOUT = {"quick": 300, "thorough": 3600}
 MOD = "vf.checks.c20"
@@ -180,8 +181,16 @@ def _tmp_single_once(case, steps, route, res):
         res.count("children_forked_inside_the_context_and_terminated")
         observe(pool, f"a child process forked {when} was terminated (SIGTERM)")
 
-    def observe(pool, desc):
+    def observe(pool, desc, final=False):
         res.evaluations += 1
+        if case.get("quiet") and not final:
+            # the directory is looked at, the pool is not asked anything
+            res.count("quiet_steps_not_followed_by_a_read")
+            on_disk = sorted(os.path.join(pool_dir, f) for f in os.listdir(d) if os.path.join(d, f) not in others())
+            expect_disk = sorted(p for p in state["listed"] if p not in state.get("ext_deleted", set()))
+            if on_disk != expect_disk:
+                fail("files-vs-listing", f"after {desc}: directory holds {on_disk}, created-and-not-removed are {expect_disk}")
+            return
         listed = state["listed"]
         on_disk = sorted(os.path.join(pool_dir, f) for f in os.listdir(d) if os.path.join(d, f) not in others())
         if comp:
@@ -299,7 +308,7 @@ def _tmp_single_once(case, steps, route, res):
                             f_.write("published content")
                         os.replace(side, tgt)
                         res.count("pool_paths_replaced_atomically_by_the_caller")
-            observe(pool, f"step {j} ({op})")
+            observe(pool, f"step {j} ({op})", final=(op == "end"))
             if route == "break" and j == len(steps) - 1:
                 break
         if route == "return":
@@ -883,3 +892,22 @@ def replay(doc):
 
 
 RULE += ' Also (wave 9): the second pool in the SAME directory, a child process forked inside the context and terminated with SIGTERM.'
+
+
+# ---- quiet histories (wave 12) ------------------------------------------------------------------------------------------
+# Case indices above BASE_CASES repeat the ordinary generator (with its own random draws) but are observed only at the end of
+# the history: the per-step observation reads the object through its public API, and a read can repair or overwrite state
+# that one operation left behind for the next (a deferred update, a remembered position) before the next operation meets it.
+_gen_case_ordinary = gen_case
+
+
+def gen_case(rng, tier, index):
+    if index >= BASE_CASES[tier]:
+        c = _gen_case_ordinary(rng, tier, 10 * (index - BASE_CASES[tier]) + (index % 5))
+        c["quiet"] = True
+        return c
+    return _gen_case_ordinary(rng, tier, index)
+
+
+RULE += (' Also (wave 12): quiet histories (case indices above BASE_CASES) whose steps are not followed by a read through the '
+         'public API; the full comparison comes once, at the end of the history.')
